@@ -307,4 +307,63 @@ end
 def handBindings : List (String × Binding) :=
   [("LiteServerSignatureSet", .tagged 0xf644a6e6 "LiteServerSignatureSetC")]
 
+/-! ### The generated client methods `(*Client).LiteServer*` -/
+
+/-- the struct every generated method decodes a `liteServer.error` answer into -/
+def errorStruct : String := "LiteServerErrorC"
+
+/-- what a generated method returns: `(res, nil)` or `(_, errRes)` -/
+inductive GoAnswer where
+  | result (v : Val)
+  | serverError (v : Val)
+  deriving Repr, Inhabited
+
+/-- the payload handed to `liteServerRequest`: the request-id literal (little-endian), then — if the method takes a
+request struct — that struct's MarshalTL -/
+def clientRequest (B : Bindings) (fuel : Nat) (m : ClientMethod) (req : Val) : Option Bytes :=
+  match m.request with
+  | none => some (le 4 m.requestId)
+  | some r => (marshalGo B fuel (.named r) req).map (le 4 m.requestId ++ ·)
+
+/-- what the generated method makes of the answer bytes: the leading tag is compared with the error literal, then (if
+the method has one) with the result literal; a sum-typed result is decoded from the whole answer -/
+def clientAnswer (B : Bindings) (fuel : Nat) (m : ClientMethod) (resp : Bytes) : Outcome GoAnswer :=
+  match readLE 4 resp with
+  | .ok (tag, r) =>
+    if tag = m.errorTag then
+      match unmarshalGo B fuel (.named errorStruct) r with
+      | .ok (v, _) => .ok (.serverError v)
+      | .err e => .err e
+      | .panic p => .panic p
+    else
+      match m.resultTag with
+      | some t =>
+        if tag = t then
+          match unmarshalGo B fuel (.named m.result) r with
+          | .ok (v, _) => .ok (.result v)
+          | .err e => .err e
+          | .panic p => .panic p
+        else .err "invalid tag"
+      | none =>
+        match unmarshalGo B fuel (.named m.result) resp with
+        | .ok (v, _) => .ok (.result v)
+        | .err e => .err e
+        | .panic p => .panic p
+  | .err e => .err e
+  | .panic p => .panic p
+
+/-- `LiteapiRequestDecoder`: the table entry selected by the leading id, then the request struct's UnmarshalTL -/
+def decoderTable (B : Bindings) (fuel : Nat) (bs : Bytes) : Outcome (Nat × Option (String × Val)) :=
+  match readLE 4 bs with
+  | .ok (tag, r) =>
+    match B.decoders.find? (fun e => e.key == tag) with
+    | some e =>
+      match unmarshalGo B fuel (.named e.goType) r with
+      | .ok (v, _) => .ok (e.tag, some (e.tlName, v))
+      | .err x => .err x
+      | .panic p => .panic p
+    | none => .ok (tag, none)
+  | .err e => .err e
+  | .panic p => .panic p
+
 end Tongo.Tl.Bind
